@@ -183,3 +183,36 @@ Example C01_example_pubkey_ecdh : exists blob,
   fst (unprotect_offline symg ex_cacheE blob) = Ok [1; 2; 3] /\
   exists blob2, (let* b := blob_unpack blob in blob_pack b false) = Ok blob2 /\ fst (unprotect_offline symg ex_cacheE blob2) = Ok [1; 2; 3].
 Proof. exact example_pubkey_ecdh. Qed.
+
+(* ---- more of the source tied to the model (flows): cek_generate, _encrypt_blob, kdf, kdf_concat, _get_protection_gke_from_cache.
+   WR c rnd_cek rnd_iv rnd_kek time_ns is the world in which AESGCM.generate_key(256), os.urandom(12), the os.urandom inside
+   key.new_kek() and time.time_ns() return these values (Flow/World_e2e.v). *)
+From V Require Import Proofs.Flow_e2e_kdf Proofs.Flow_e2e_gke.
+Theorem C01_flow_cek_generate : forall c rnd_cek rnd_iv rnd_kek time_ns fuel a,
+  run (WR c rnd_cek rnd_iv rnd_kek time_ns) fuel k_flow_cek_generate [VO (OOid a)]
+  = (let* (k, iv) := cek_generate a rnd_cek rnd_iv in Ok (VT [VB k; VB iv])).
+Proof. exact flow_cek_generate. Qed.
+Print Assumptions C01_flow_cek_generate.
+Theorem C01_flow_encrypt_blob : forall c rnd_cek rnd_iv rnd_kek time_ns fuel data key sid,
+  run (WR c rnd_cek rnd_iv rnd_kek time_ns) fuel k_flow_encrypt_blob [VB data; VO (OEnv key); VO (OSid sid)]
+  = (let* b := encrypt_blob c rnd_cek rnd_iv rnd_kek data key sid in Ok (VB b)).
+Proof. exact flow_encrypt_blob. Qed.
+Print Assumptions C01_flow_encrypt_blob.
+(* _crypto.kdf / kdf_concat are the `kdf` / `concat_kdf` fields of the Crypto record (KBKDFHMAC has a meaning in the world only as
+   counter mode, rlen = llen = 4, counter before the fixed input, fixed = None) *)
+Theorem C01_flow_kdf : forall c fuel h secret label context length,
+  run (W c) fuel k_flow_kdf [VO (OHash h); VB secret; VB label; VB context; VI length]
+  = Ok (VB (kdf c h secret label context length)).
+Proof. exact flow_kdf. Qed.
+Print Assumptions C01_flow_kdf.
+Theorem C01_flow_kdf_concat : forall c fuel h secret algorithm_id party_uinfo party_vinfo length,
+  run (W c) fuel k_flow_kdf_concat [VO (OHash h); VB secret; VB algorithm_id; VB party_uinfo; VB party_vinfo; VI length]
+  = Ok (VB (concat_kdf c h secret (algorithm_id ++ party_uinfo ++ party_vinfo)%list length)).
+Proof. exact flow_kdf_concat. Qed.
+Print Assumptions C01_flow_kdf_concat.
+(* the returned envelope (the cache after the call is mutated in place by the source and is not a return value) *)
+Theorem C01_flow_get_protection_gke_from_cache : forall c rnd_cek rnd_iv rnd_kek time_ns fuel rkid target_sd cache,
+  run (WR c rnd_cek rnd_iv rnd_kek time_ns) fuel k_flow_get_protection_gke_from_cache [vopt_uuid rkid; VB target_sd; VO (OCache cache)]
+  = (let* (e, _) := protection_gke_from_cache c cache rkid target_sd time_ns in Ok (vopt_env e)).
+Proof. exact flow_get_protection_gke_from_cache. Qed.
+Print Assumptions C01_flow_get_protection_gke_from_cache.
